@@ -35,6 +35,7 @@ type concOut struct {
 	LegitRequests    int64                    `json:"legit_requests"`
 	LegitServed      int64                    `json:"legit_served"`
 	LegitRefused     int64                    `json:"legit_refused"`
+	Abandoned        int64                    `json:"answers_abandoned_by_a_verified_controller"`
 	Viols            []map[string]interface{} `json:"violations"`
 	Incon            string                   `json:"inconclusive,omitempty"`
 }
@@ -80,6 +81,31 @@ func concurrentPhase(w *world, seed int64, perAttacker int) (out concOut) {
 			}
 		}(k, lc)
 	}
+	// an impatient verified controller: it asks for the attribute database and leaves before (or while) the answer is
+	// written, again and again; what its aborted answers leave behind must not reach anybody else
+	for k := 0; k < 3; k++ {
+		wg.Add(1)
+		go func(k int) {
+			defer wg.Done()
+			rnd := rand.New(rand.NewSource(seed*19 + int64(k)))
+			for i := 0; atomic.LoadInt32(&stop) == 0; i++ {
+				lc, err := w.legit()
+				if err != nil {
+					return
+				}
+				lc.Send(refctl.BuildRequest("GET", "/accessories", "", nil))
+				if d := rnd.Intn(4); d > 0 {
+					time.Sleep(time.Duration(rnd.Intn(300*d)) * time.Microsecond)
+				}
+				if i%4 == 3 {
+					lc.CloseGraceful()
+				} else {
+					lc.Close()
+				}
+				atomic.AddInt64(&out.Abandoned, 1)
+			}
+		}(k)
+	}
 	// unverified peers
 	ops := []string{"GET /accessories", "GET /characteristics", "PUT value", "POST /pairings add", "PUT ev", "POST /resource"}
 	for k := 0; k < 4 && out.Incon == ""; k++ {
@@ -116,6 +142,9 @@ func concurrentPhase(w *world, seed int64, perAttacker int) (out concOut) {
 						map[string]interface{}{"request": op, "status": m.Status, "body_head": trim(string(m.Body), 200), "attacker": k, "request_no": i})
 					continue
 				}
+				if bytes.Contains(m.Body, []byte(`"iid"`)) || bytes.Contains(m.Body, []byte(`"perms"`)) {
+					viol("concurrent:disclosed:"+op+":attribute-database", fmt.Sprintf("the refusal of %s contains attribute database content", op), map[string]interface{}{"request": op, "status": m.Status, "body_head": trim(string(m.Body), 300)})
+				}
 				for _, cn := range w.canaries {
 					if bytes.Contains(m.Body, []byte(cn)) {
 						viol("concurrent:disclosed:"+op, fmt.Sprintf("the refusal of %s contains a value of the attribute database", op), map[string]interface{}{"request": op, "status": m.Status})
@@ -150,6 +179,7 @@ func mergeConcurrent(r *vf.Run, o concOut, build string) {
 	r.Count("concurrent_legit_requests", int(o.LegitRequests))
 	r.Count("concurrent_legit_requests_served", int(o.LegitServed))
 	r.Count("concurrent_legit_requests_refused", int(o.LegitRefused))
+	r.Count("concurrent_answers_abandoned_by_a_verified_controller", int(o.Abandoned))
 	r.Nontrivial(fmt.Sprintf("concurrent/%s/%d/%d", build, o.AttackerRequests, o.LegitRequests))
 	for _, v := range o.Viols {
 		wit, _ := v["witness"].(map[string]interface{})
